@@ -1,7 +1,1206 @@
 package main
 
+// Part 2 of the C12 driver: exploration (supports the theorem, is not part of
+// it). Every exported entry point that decodes untrusted bytes is run under
+// recover, a deadline and an allocation bound on random inputs and on
+// structure-aware mutations of valid ones. A recovered panic, a hang or an
+// allocation above the bound is a concrete failing input (ImplViolation).
+
 import (
+	"bytes"
+	"context"
+	"crypto/rand"
+	"crypto/sha256"
+	"crypto/x509"
+	"encoding/base64"
+	"encoding/hex"
+	"encoding/json"
+	"errors"
+	"fmt"
+	"io"
+	"math/big"
+	"os"
+	"path/filepath"
+	"runtime/debug"
+	"runtime/metrics"
+	"strings"
+	"time"
 	. "vh/kit"
+
+	"github.com/fxamacker/cbor/v2"
+	"github.com/notaryproject/notation-go"
+	"github.com/notaryproject/notation-go/config"
+	"github.com/notaryproject/notation-go/dir"
+	"github.com/notaryproject/notation-go/plugin"
+	"github.com/notaryproject/notation-go/registry"
+	"github.com/notaryproject/notation-go/signer"
+	"github.com/notaryproject/notation-go/verifier"
+	"github.com/notaryproject/notation-go/verifier/crl"
+	"github.com/notaryproject/notation-go/verifier/trustpolicy"
+	"github.com/notaryproject/notation-go/verifier/truststore"
+	pluginfw "github.com/notaryproject/notation-plugin-framework-go/plugin"
+	"github.com/opencontainers/go-digest"
+	ocispec "github.com/opencontainers/image-spec/specs-go/v1"
 )
 
-func explore(a *Args, r *Rng, w *CaseWriter, firstID int64) error { return nil }
+// ---------- the guarded runner ----------
+
+type xcase struct {
+	Part   string `json:"part"`
+	Family string `json:"family"`
+	Entry  string `json:"entry"`
+	Note   string `json:"note,omitempty"`
+	Input  string `json:"input_base64,omitempty"`
+	Panic  string `json:"panic,omitempty"`
+	Alloc  uint64 `json:"allocated_bytes,omitempty"`
+}
+
+type xrun struct {
+	w        *CaseWriter
+	id       int64
+	n        int
+	viol     int
+	byFam    map[string]int
+	deadline time.Duration
+	maxAlloc uint64
+	sample   []metrics.Sample
+}
+
+func (x *xrun) allocs() uint64 {
+	metrics.Read(x.sample)
+	return x.sample[0].Value.Uint64()
+}
+
+// call runs f guarded. bound = allocation bound in bytes for this call.
+func (x *xrun) call(family, entry, note string, input []byte, bound uint64, f func()) {
+	my := x.id
+	x.id++
+	if !x.w.Want(my) {
+		return
+	}
+	x.n++
+	x.byFam[family]++
+	x.w.Count("exploration_family", family)
+	done := make(chan string, 1)
+	before := x.allocs()
+	go func() {
+		defer func() {
+			if r := recover(); r != nil {
+				done <- fmt.Sprintf("panic: %v", r)
+				return
+			}
+			done <- ""
+		}()
+		f()
+	}()
+	var what string
+	select {
+	case what = <-done:
+	case <-time.After(x.deadline):
+		what = fmt.Sprintf("no return within %v", x.deadline)
+	}
+	alloc := x.allocs() - before
+	if alloc > x.maxAlloc {
+		x.maxAlloc = alloc
+	}
+	if what == "" && alloc > bound {
+		what = fmt.Sprintf("runaway allocation: %d bytes allocated during the call (bound %d)", alloc, bound)
+	}
+	if what != "" {
+		x.viol++
+		in := input
+		if len(in) > 1<<16 {
+			in = in[:1<<16]
+		}
+		c := xcase{Part: "exploration", Family: family, Entry: entry, Note: note, Input: base64.StdEncoding.EncodeToString(in), Panic: what, Alloc: alloc}
+		x.w.ImplViolation(my, entry+": "+what, c, "")
+	}
+}
+
+const (
+	boundSmall = 24 << 20 // inputs of a few KiB never need more
+	boundBlob  = 33 << 20 // just above the 32 MiB signature blob cap
+	boundMan   = 4<<20 + 1<<19
+)
+
+// ---------- mutators ----------
+
+func randBytes(r *Rng, n int) []byte {
+	b := make([]byte, n)
+	for i := range b {
+		b[i] = byte(r.U64())
+	}
+	return b
+}
+
+var interesting = [][]byte{
+	{0x00}, {0xff}, {0x7f}, {0x80}, []byte("null"), []byte("{}"), []byte("[]"), []byte(`""`), []byte("-1"), []byte("1e999"),
+	{0x9b, 0xff, 0xff, 0xff, 0xff, 0xff, 0xff, 0xff, 0xff}, {0x5b, 0x7f, 0xff, 0xff, 0xff, 0xff, 0xff, 0xff, 0xff},
+	{0xbb, 0x00, 0x00, 0x00, 0x01, 0x00, 0x00, 0x00, 0x00}, {0x9f}, {0xbf}, {0x5f}, {0xd8, 0x12}, {0xf9, 0x7e, 0x00},
+	{0x30, 0x84, 0x7f, 0xff, 0xff, 0xff}, {0x30, 0x80},
+}
+
+func mutateBytes(r *Rng, b []byte) []byte {
+	c := append([]byte(nil), b...)
+	for k := 1 + r.Intn(3); k > 0; k-- {
+		if len(c) == 0 {
+			return randBytes(r, 1+r.Intn(16))
+		}
+		p := r.Intn(len(c))
+		switch r.Intn(9) {
+		case 0:
+			c[p] ^= 1 << uint(r.Intn(8))
+		case 1:
+			c[p] = byte(r.U64())
+		case 2:
+			c = c[:p]
+		case 3:
+			c = c[p:]
+		case 4:
+			ins := Pick(r, interesting)
+			c = append(c[:p], append(append([]byte(nil), ins...), c[p:]...)...)
+		case 5:
+			q := p + r.Intn(len(c)-p)
+			c = append(c[:p], c[q:]...)
+		case 6:
+			q := p + r.Intn(len(c)-p)
+			c = append(c[:q], append(append([]byte(nil), c[p:q]...), c[q:]...)...)
+		case 7:
+			ins := Pick(r, interesting)
+			for i := 0; i < len(ins) && p+i < len(c); i++ {
+				c[p+i] = ins[i]
+			}
+		case 8:
+			c = append(c, randBytes(r, 1+r.Intn(32))...)
+		}
+	}
+	return c
+}
+
+func confused(r *Rng, depth int) any {
+	switch r.Intn(14) {
+	case 0:
+		return nil
+	case 1:
+		return true
+	case 2:
+		return float64(r.Intn(1000)) - 500
+	case 3:
+		return 1e308
+	case 4:
+		return ""
+	case 5:
+		return strings.Repeat("A", 1+r.Intn(5000))
+	case 6:
+		return []any{}
+	case 7:
+		return map[string]any{}
+	case 8:
+		return []any{nil, 1.0, "x", []any{}, map[string]any{"a": nil}}
+	case 9:
+		var v any = "deep"
+		for i := 0; i < 50+r.Intn(400); i++ {
+			if r.Bool() {
+				v = []any{v}
+			} else {
+				v = map[string]any{"k": v}
+			}
+		}
+		return v
+	case 10:
+		return "\x00\xff\xfe bad utf8 \xc3\x28"
+	case 11:
+		return json.Number("123456789012345678901234567890")
+	case 12:
+		return -1.0
+	}
+	return string(randBytes(r, r.Intn(40)))
+}
+
+// mutateTree applies one edit somewhere inside a decoded JSON value.
+func mutateTree(r *Rng, v any, depth int) any {
+	switch t := v.(type) {
+	case map[string]any:
+		if len(t) == 0 || r.Chance(1, 6) {
+			if r.Bool() {
+				return confused(r, depth)
+			}
+			t[Pick(r, []string{"", "level", "name", "version", "extra", "Name", "trustPolicies", "keys"})] = confused(r, depth)
+			return t
+		}
+		keys := make([]string, 0, len(t))
+		for k := range t {
+			keys = append(keys, k)
+		}
+		sortStrings(keys)
+		k := Pick(r, keys)
+		switch r.Intn(6) {
+		case 0:
+			delete(t, k)
+		case 1:
+			t[k] = confused(r, depth)
+		case 2:
+			t[strings.ToUpper(k)] = t[k]
+		default:
+			t[k] = mutateTree(r, t[k], depth+1)
+		}
+		return t
+	case []any:
+		if len(t) == 0 || r.Chance(1, 6) {
+			if r.Bool() {
+				return confused(r, depth)
+			}
+			return append(t, confused(r, depth))
+		}
+		i := r.Intn(len(t))
+		switch r.Intn(6) {
+		case 0:
+			return append(t[:i], t[i+1:]...)
+		case 1:
+			t[i] = confused(r, depth)
+		case 2:
+			return append(t, t[i])
+		default:
+			t[i] = mutateTree(r, t[i], depth+1)
+		}
+		return t
+	case string:
+		switch r.Intn(5) {
+		case 0:
+			return confused(r, depth)
+		case 1:
+			return t + string(Pick(r, interesting))
+		case 2:
+			if len(t) > 0 {
+				return t[:r.Intn(len(t))]
+			}
+			return "x"
+		case 3:
+			return strings.Repeat(t, 2+r.Intn(50))
+		}
+		return Pick(r, []string{"*", "", " ", "skip", "strict", "ca:", ":", "x509.subject:", "x509.subject: CN=", "ca:..", "tsa:x", "a:b:c", "../x", "1.0", "2.0"})
+	}
+	return confused(r, depth)
+}
+
+func sortStrings(xs []string) {
+	for i := 1; i < len(xs); i++ {
+		for j := i; j > 0 && xs[j] < xs[j-1]; j-- {
+			xs[j], xs[j-1] = xs[j-1], xs[j]
+		}
+	}
+}
+
+// mutateJSON returns a mutated document: tree edits on the decoded value, or
+// byte-level edits, or plain random bytes.
+func mutateJSON(r *Rng, doc []byte) []byte {
+	switch r.Intn(10) {
+	case 0:
+		return randBytes(r, r.Intn(200))
+	case 1, 2:
+		return mutateBytes(r, doc)
+	case 3:
+		// duplicate members / trailing data
+		return append(append([]byte(nil), doc...), doc...)
+	}
+	var v any
+	dec := json.NewDecoder(bytes.NewReader(doc))
+	dec.UseNumber()
+	if dec.Decode(&v) != nil {
+		return mutateBytes(r, doc)
+	}
+	for k := 1 + r.Intn(2); k > 0; k-- {
+		v = mutateTree(r, v, 0)
+	}
+	b, err := json.Marshal(v)
+	if err != nil {
+		return mutateBytes(r, doc)
+	}
+	return b
+}
+
+// mutateJWS edits a JWS envelope with knowledge of its structure.
+func mutateJWS(r *Rng, env []byte) []byte {
+	var m map[string]any
+	if json.Unmarshal(env, &m) != nil || r.Chance(1, 4) {
+		return mutateJSON(r, env)
+	}
+	field := Pick(r, []string{"protected", "payload", "signature", "header"})
+	switch field {
+	case "header":
+		m["header"] = mutateTree(r, m["header"], 0)
+	default:
+		s, _ := m[field].(string)
+		raw, err := base64.RawURLEncoding.DecodeString(s)
+		if err != nil || r.Chance(1, 5) {
+			m[field] = mutateTree(r, m[field], 0)
+			break
+		}
+		if field == "signature" {
+			raw = mutateBytes(r, raw)
+		} else {
+			raw = mutateJSON(r, raw)
+		}
+		m[field] = base64.RawURLEncoding.EncodeToString(raw)
+	}
+	b, err := json.Marshal(m)
+	if err != nil {
+		return mutateBytes(r, env)
+	}
+	return b
+}
+
+func cborConfused(r *Rng) any {
+	switch r.Intn(10) {
+	case 0:
+		return nil
+	case 1:
+		return int64(-1)
+	case 2:
+		return uint64(1) << 63
+	case 3:
+		return []byte{}
+	case 4:
+		return randBytes(r, r.Intn(64))
+	case 5:
+		return []any{}
+	case 6:
+		return map[any]any{int64(1): nil}
+	case 7:
+		return cbor.Tag{Number: uint64(r.Intn(40)), Content: "tagged"}
+	case 8:
+		return strings.Repeat("s", r.Intn(300))
+	}
+	return 1.5
+}
+
+func mutateCBORTree(r *Rng, v any) any {
+	switch t := v.(type) {
+	case map[any]any:
+		if len(t) == 0 || r.Chance(1, 5) {
+			t[Pick(r, []any{int64(1), int64(2), int64(3), int64(33), "io.cncf.notary.signingScheme", "crit", int64(-70000)})] = cborConfused(r)
+			return t
+		}
+		i, n := 0, r.Intn(len(t))
+		for k, val := range t {
+			if i == n {
+				switch r.Intn(4) {
+				case 0:
+					delete(t, k)
+				case 1:
+					t[k] = cborConfused(r)
+				default:
+					t[k] = mutateCBORTree(r, val)
+				}
+				break
+			}
+			i++
+		}
+		return t
+	case []any:
+		if len(t) == 0 || r.Chance(1, 5) {
+			return append(t, cborConfused(r))
+		}
+		i := r.Intn(len(t))
+		switch r.Intn(4) {
+		case 0:
+			return append(t[:i], t[i+1:]...)
+		case 1:
+			t[i] = cborConfused(r)
+		default:
+			t[i] = mutateCBORTree(r, t[i])
+		}
+		return t
+	case []byte:
+		if r.Bool() {
+			return mutateBytes(r, t)
+		}
+		return cborConfused(r)
+	}
+	return cborConfused(r)
+}
+
+// mutateCOSE edits a COSE_Sign1 envelope: tag, the four array fields, the
+// protected header map (re-encoded), the unprotected header tree.
+func mutateCOSE(r *Rng, env []byte) []byte {
+	if r.Chance(1, 3) {
+		return mutateBytes(r, env)
+	}
+	var tag cbor.Tag
+	if cbor.Unmarshal(env, &tag) != nil {
+		return mutateBytes(r, env)
+	}
+	arr, ok := tag.Content.([]any)
+	if !ok || len(arr) != 4 {
+		return mutateBytes(r, env)
+	}
+	switch r.Intn(7) {
+	case 0:
+		tag.Number = uint64(r.Intn(100))
+	case 1:
+		if p, ok := arr[0].([]byte); ok {
+			var pm map[any]any
+			if cbor.Unmarshal(p, &pm) == nil {
+				pm2 := mutateCBORTree(r, pm)
+				if b, err := cbor.Marshal(pm2); err == nil {
+					arr[0] = b
+					break
+				}
+			}
+			arr[0] = mutateBytes(r, p)
+		}
+	case 2:
+		arr[1] = mutateCBORTree(r, arr[1])
+	case 3:
+		if p, ok := arr[2].([]byte); ok {
+			arr[2] = mutateJSON(r, p)
+		}
+	case 4:
+		arr[3] = mutateCBORTree(r, arr[3])
+	case 5:
+		i := r.Intn(4)
+		arr[i] = cborConfused(r)
+	case 6:
+		if r.Bool() {
+			arr = arr[:r.Intn(4)]
+		} else {
+			arr = append(arr, cborConfused(r))
+		}
+	}
+	tag.Content = arr
+	b, err := cbor.Marshal(tag)
+	if err != nil {
+		return mutateBytes(r, env)
+	}
+	return b
+}
+
+// ---------- the families ----------
+
+func explore(a *Args, r *Rng, w *CaseWriter, firstID int64) error {
+	debug.SetMemoryLimit(3 << 30)
+	x := &xrun{w: w, id: firstID, byFam: map[string]int{}, deadline: 20 * time.Second,
+		sample: []metrics.Sample{{Name: "/gc/heap/allocs:bytes"}}}
+	thorough := a.Tier == "thorough"
+	scale := func(quick, thor int) int {
+		if thorough {
+			return thor
+		}
+		return quick
+	}
+	tmp, err := os.MkdirTemp("", "vh-c12-")
+	if err != nil {
+		return err
+	}
+	defer os.RemoveAll(tmp)
+	e := newEnv()
+	ctx := context.Background()
+
+	exploreEnvelopes(x, r, e, ctx, scale(9000, 400000))
+	exploreDocuments(x, r, e, ctx, tmp, scale(9000, 300000))
+	exploreCRL(x, r, ctx, tmp, scale(1500, 60000))
+	exploreGraph(x, r, e, ctx, scale(2500, 100000))
+	exploreLayouts(x, r, e, ctx, tmp, scale(150, 4000))
+	exploreSignerPlugin(x, r, e, ctx, scale(1500, 60000))
+	explorePluginProcess(x, r, e, ctx, tmp, scale(120, 3000))
+
+	w.Set("part2", "exploration (Go side only; supports the theorem, is not part of it): exported entry points under recover + deadline + allocation bound on random and mutated inputs")
+	w.Set("exploration_inputs", x.n)
+	w.Set("exploration_inputs_by_family", x.byFam)
+	w.Set("exploration_violations", x.viol)
+	w.Set("exploration_max_allocation_bytes_in_one_call", x.maxAlloc)
+	w.Set("exploration_guards", fmt.Sprintf("recover around every call; deadline %v per call; allocation bound %d MiB per call (33 MiB where a signature blob under the 32 MiB cap may legitimately be read, 4.5 MiB for manifests); soft memory limit 3 GiB", x.deadline, boundSmall>>20))
+	return nil
+}
+
+// (i) signature envelopes through the verifier and notation.VerifyBlob
+func exploreEnvelopes(x *xrun, r *Rng, e *env, ctx context.Context, n int) {
+	var bases [][2]any
+	for _, f := range []string{MtJWS, MtCOSE} {
+		for k := 0; k < 4; k++ {
+			s := okSc()
+			s.Format = f
+			switch k {
+			case 1:
+				s.PAttr, s.Minver, s.Crit = 2, 1, true
+			case 2:
+				s.ExpFail, s.Payload = true, 2
+			case 3:
+				s.NonStr = f == MtCOSE
+				s.Crit = true
+			}
+			bases = append(bases, [2]any{f, e.envelope(s)})
+		}
+	}
+	mk := func(level string, pm bool) notation.Verifier {
+		c := &lcase{OCI: docCfg{Kind: 2, Level: level}, Blob: docCfg{Kind: 2, Level: level, Global: true}, PM: pmCfg{Kind: 0}, Sc: okSc()}
+		if pm {
+			c.PM = pmOK("TI", "Rev")
+		}
+		v, _, err := e.build(c, okSc())
+		if err != nil {
+			panic(err)
+		}
+		return v
+	}
+	vs := []notation.Verifier{mk("strict", true), mk("permissive", false), mk("audit", true)}
+	for k := 0; k < n; k++ {
+		b := Pick(r, bases)
+		format, valid := b[0].(string), b[1].([]byte)
+		var in []byte
+		note := "mutated " + format
+		switch r.Intn(12) {
+		case 0:
+			in, note = randBytes(r, r.Intn(300)), "random bytes"
+		case 1:
+			in, note = valid, "valid envelope"
+		default:
+			if format == MtJWS {
+				in = mutateJWS(r, valid)
+			} else {
+				in = mutateCOSE(r, valid)
+			}
+		}
+		mt := format
+		if r.Chance(1, 10) {
+			mt = Pick(r, []string{MtJWS, MtCOSE, "", "application/unknown"})
+		}
+		v := Pick(r, vs)
+		switch r.Intn(3) {
+		case 0:
+			x.call("envelope", "verifier.Verify", note, in, boundSmall, func() {
+				o, err := v.Verify(ctx, e.desc, in, notation.VerifierVerifyOptions{ArtifactReference: e.ref, SignatureMediaType: mt, UserMetadata: map[string]string{"k": "v"}})
+				checkPair(o, err, true)
+				if o != nil {
+					o.UserMetadata()
+				}
+			})
+		case 1:
+			x.call("envelope", "verifier.VerifyBlob", note, in, boundSmall, func() {
+				bv := v.(notation.BlobVerifier)
+				o, err := bv.VerifyBlob(ctx, e.descGen(okSc()), in, notation.BlobVerifierVerifyOptions{SignatureMediaType: mt})
+				checkPair(o, err, true)
+				if o != nil {
+					o.UserMetadata()
+				}
+			})
+		case 2:
+			x.call("envelope", "notation.VerifyBlob", note, in, boundSmall, func() {
+				bv := v.(notation.BlobVerifier)
+				_, o, err := notation.VerifyBlob(ctx, bv, bytes.NewReader(blobContent), in, notation.VerifyBlobOptions{BlobVerifierVerifyOptions: notation.BlobVerifierVerifyOptions{SignatureMediaType: mt}, ContentMediaType: "application/octet-stream"})
+				checkPair(o, err, false)
+			})
+		}
+	}
+}
+
+// checkPair panics (and is thereby recorded) when an (outcome, error) pair is
+// inconsistent: no error without an error-free outcome, or (afterSel) an error
+// with an outcome whose Error is not that error.
+func checkPair(o *notation.VerificationOutcome, err error, afterSel bool) {
+	if err == nil {
+		if o == nil {
+			panic("inconsistent: no error and no outcome")
+		}
+		if o.Error != nil {
+			panic("inconsistent: no error but outcome.Error is set")
+		}
+		return
+	}
+	if o != nil && o.Error == nil {
+		panic("inconsistent: an error next to an outcome without error")
+	}
+	if afterSel && o == nil {
+		panic("inconsistent: an error after policy selection without outcome")
+	}
+	if afterSel && !sameErr(o.Error, err) {
+		panic("inconsistent: outcome.Error is not the error returned")
+	}
+}
+
+var ociPolicyBase = []byte(`{"version":"1.0","trustPolicies":[{"name":"a","registryScopes":["reg.example/repo","reg.example/b"],"signatureVerification":{"level":"strict","override":{"revocation":"skip"},"verifyTimestamp":"afterCertExpiry"},"trustStores":["ca:s","tsa:t"],"trustedIdentities":["x509.subject: CN=x,O=Verif,C=US","x509.subject: CN=y,O=Verif,C=US"]},{"name":"w","registryScopes":["*"],"signatureVerification":{"level":"audit"},"trustStores":["signingAuthority:s"],"trustedIdentities":["*"]},{"name":"s","registryScopes":["reg.example/skipped"],"signatureVerification":{"level":"skip"}}]}`)
+var blobPolicyBase = []byte(`{"version":"1.0","trustPolicies":[{"name":"bp","signatureVerification":{"level":"permissive","override":{"expiry":"enforce"}},"trustStores":["ca:s"],"trustedIdentities":["x509.subject: CN=x,O=Verif,C=US"],"globalPolicy":true},{"name":"sk","signatureVerification":{"level":"skip"}}]}`)
+var keysBase = []byte(`{"default":"k1","keys":[{"name":"k1","keyPath":"/a/k1.key","certPath":"/a/k1.crt"},{"name":"k2","id":"kid","pluginName":"plug","pluginConfig":{"a":"b"}}]}`)
+var configBase = []byte(`{"insecureRegistries":["reg.example"],"credsStore":"x","credHelpers":{"reg.example":"h"},"signatureFormat":"cose"}`)
+
+// (ii) JSON documents: trust policies, signing keys, config
+func exploreDocuments(x *xrun, r *Rng, e *env, ctx context.Context, tmp string, n int) {
+	cfgDir := filepath.Join(tmp, "config")
+	os.MkdirAll(cfgDir, 0o755)
+	oldCfg := dir.UserConfigDir
+	dir.UserConfigDir = cfgDir
+	defer func() { dir.UserConfigDir = oldCfg }()
+	refs := []string{"reg.example/repo@sha256:" + strings.Repeat("a", 64), "reg.example/skipped@sha256:" + strings.Repeat("a", 64), "x", "", "reg.example/repo:tag", "@", "reg.example/../x@sha256:00"}
+	store := NewMockStore()
+	for k := 0; k < n; k++ {
+		viaFile := r.Chance(1, 8)
+		switch r.Intn(9) {
+		case 0, 1, 2:
+			in := mutateJSON(r, ociPolicyBase)
+			x.call("document", "trustpolicy.OCIDocument", fmt.Sprintf("file=%v", viaFile), in, boundSmall, func() {
+				var doc *trustpolicy.OCIDocument
+				if viaFile {
+					os.WriteFile(filepath.Join(cfgDir, dir.PathOCITrustPolicy), in, 0o600)
+					d, err := trustpolicy.LoadOCIDocument()
+					if err != nil {
+						verifier.NewOCIVerifierFromConfig()
+						return
+					}
+					doc = d
+					verifier.NewOCIVerifierFromConfig()
+				} else {
+					doc = &trustpolicy.OCIDocument{}
+					if json.Unmarshal(in, doc) != nil {
+						return
+					}
+				}
+				verr := doc.Validate()
+				for _, ref := range refs {
+					p, err := doc.GetApplicableTrustPolicy(ref)
+					if err == nil && p != nil {
+						p.SignatureVerification.GetVerificationLevel()
+					}
+				}
+				// a document the constructor accepts (or not) drives every entry point
+				v, err := verifier.NewVerifierWithOptions(store, verifier.VerifierOptions{OCITrustPolicy: doc})
+				if err != nil {
+					return
+				}
+				_ = verr
+				for _, ref := range refs[:3] {
+					o, err := v.Verify(ctx, e.desc, e.envelope(okSc()), notation.VerifierVerifyOptions{ArtifactReference: ref, SignatureMediaType: MtJWS})
+					checkPair(o, err, o != nil)
+					v.SkipVerify(ctx, notation.VerifierVerifyOptions{ArtifactReference: ref})
+				}
+			})
+		case 3, 4:
+			in := mutateJSON(r, blobPolicyBase)
+			x.call("document", "trustpolicy.BlobDocument", fmt.Sprintf("file=%v", viaFile), in, boundSmall, func() {
+				var doc *trustpolicy.BlobDocument
+				if viaFile {
+					os.WriteFile(filepath.Join(cfgDir, dir.PathBlobTrustPolicy), in, 0o600)
+					d, err := trustpolicy.LoadBlobDocument()
+					verifier.NewBlobVerifierFromConfig()
+					if err != nil {
+						return
+					}
+					doc = d
+				} else {
+					doc = &trustpolicy.BlobDocument{}
+					if json.Unmarshal(in, doc) != nil {
+						return
+					}
+				}
+				doc.Validate()
+				doc.GetGlobalTrustPolicy()
+				for _, nm := range []string{"bp", "sk", "", " ", "nope"} {
+					p, err := doc.GetApplicableTrustPolicy(nm)
+					if err == nil && p != nil {
+						p.SignatureVerification.GetVerificationLevel()
+					}
+				}
+				v, err := verifier.NewVerifierWithOptions(store, verifier.VerifierOptions{BlobTrustPolicy: doc})
+				if err != nil {
+					return
+				}
+				for _, nm := range []string{"bp", "sk", ""} {
+					o, err := v.VerifyBlob(ctx, e.descGen(okSc()), e.envelope(okSc()), notation.BlobVerifierVerifyOptions{SignatureMediaType: MtJWS, TrustPolicyName: nm})
+					checkPair(o, err, o != nil)
+					_, o2, err2 := notation.VerifyBlob(ctx, v, bytes.NewReader(blobContent), e.envelope(okSc()), notation.VerifyBlobOptions{BlobVerifierVerifyOptions: notation.BlobVerifierVerifyOptions{SignatureMediaType: MtJWS, TrustPolicyName: nm}})
+					checkPair(o2, err2, false)
+				}
+			})
+		case 5, 6:
+			in := mutateJSON(r, keysBase)
+			x.call("document", "config.LoadSigningKeys", "", in, boundSmall, func() {
+				os.WriteFile(filepath.Join(cfgDir, dir.PathSigningKeys), in, 0o600)
+				ks, err := config.LoadSigningKeys()
+				if err != nil || ks == nil {
+					return
+				}
+				ks.GetDefault()
+				for _, nm := range []string{"k1", "k2", "", "zz"} {
+					k, err := ks.Get(nm)
+					if err == nil {
+						_ = k.Is(nm)
+					}
+				}
+				ks.UpdateDefault("k2")
+				ks.Remove("k1")
+				ks.Remove("k2", "k1")
+				ks.GetDefault()
+			})
+		default:
+			in := mutateJSON(r, configBase)
+			x.call("document", "config.LoadConfig", "", in, boundSmall, func() {
+				os.WriteFile(filepath.Join(cfgDir, dir.PathConfigFile), in, 0o600)
+				config.LoadConfig()
+			})
+		}
+	}
+	os.Remove(filepath.Join(cfgDir, dir.PathOCITrustPolicy))
+	os.Remove(filepath.Join(cfgDir, dir.PathBlobTrustPolicy))
+}
+
+// (ii, continued) CRL cache entries
+func exploreCRL(x *xrun, r *Rng, ctx context.Context, tmp string, n int) {
+	root := filepath.Join(tmp, "crl")
+	cache, err := crl.NewFileCache(root)
+	if err != nil {
+		panic(err)
+	}
+	ca := Mint(CertSpec{Subject: Name("c12 crl ca"), IsCA: true}, nil)
+	ca.C.KeyUsage |= x509.KeyUsageCRLSign
+	mkCRL := func(next time.Time) []byte {
+		tpl := &x509.RevocationList{Number: big.NewInt(5), ThisUpdate: time.Now().Add(-time.Hour), NextUpdate: next}
+		issuer := *ca.C
+		issuer.KeyUsage = x509.KeyUsageCRLSign | x509.KeyUsageCertSign
+		der, err := x509.CreateRevocationList(rand.Reader, tpl, &issuer, ca.Key)
+		if err != nil {
+			panic(err)
+		}
+		return der
+	}
+	fresh, stale := mkCRL(time.Now().Add(24*time.Hour)), mkCRL(time.Now().Add(-time.Minute))
+	entry := func(base, delta []byte) []byte {
+		m := map[string]any{"baseCRL": base}
+		if delta != nil {
+			m["deltaCRL"] = delta
+		}
+		b, _ := json.Marshal(m)
+		return b
+	}
+	bases := [][]byte{entry(fresh, nil), entry(fresh, fresh), entry(stale, nil), entry(fresh, stale)}
+	url := "http://crl.example/ca.crl"
+	sum := sha256.Sum256([]byte(url))
+	path := filepath.Join(root, hex.EncodeToString(sum[:]))
+	for k := 0; k < n; k++ {
+		var in []byte
+		base := Pick(r, bases)
+		switch r.Intn(6) {
+		case 0:
+			in = base
+		case 1:
+			// valid JSON around a corrupted DER
+			var m map[string][]byte
+			json.Unmarshal(base, &m)
+			m["baseCRL"] = mutateBytes(r, m["baseCRL"])
+			if r.Bool() {
+				m["deltaCRL"] = mutateBytes(r, m["baseCRL"])
+			}
+			in, _ = json.Marshal(m)
+		default:
+			in = mutateJSON(r, base)
+		}
+		x.call("crl-cache", "crl.FileCache.Get", "", in, boundSmall, func() {
+			os.WriteFile(path, in, 0o600)
+			b, err := cache.Get(ctx, url)
+			if err == nil && (b == nil || b.BaseCRL == nil) {
+				panic("inconsistent: no error and no bundle")
+			}
+		})
+	}
+}
+
+// (iii) hostile registry content, in memory: an oras.GraphTarget whose
+// referrers, manifests and blobs are scripted
+type fakeTarget struct {
+	blobs map[digest.Digest][]byte
+	preds []ocispec.Descriptor
+	tags  map[string]ocispec.Descriptor
+}
+
+func (f *fakeTarget) Fetch(ctx context.Context, d ocispec.Descriptor) (io.ReadCloser, error) {
+	b, ok := f.blobs[d.Digest]
+	if !ok {
+		return nil, errors.New("not found")
+	}
+	return io.NopCloser(bytes.NewReader(b)), nil
+}
+func (f *fakeTarget) Exists(ctx context.Context, d ocispec.Descriptor) (bool, error) {
+	_, ok := f.blobs[d.Digest]
+	return ok, nil
+}
+func (f *fakeTarget) Push(ctx context.Context, d ocispec.Descriptor, c io.Reader) error {
+	return errors.New("read only")
+}
+func (f *fakeTarget) Resolve(ctx context.Context, ref string) (ocispec.Descriptor, error) {
+	d, ok := f.tags[ref]
+	if !ok {
+		return ocispec.Descriptor{}, errors.New("not found")
+	}
+	return d, nil
+}
+func (f *fakeTarget) Tag(ctx context.Context, d ocispec.Descriptor, ref string) error {
+	return errors.New("read only")
+}
+func (f *fakeTarget) Predecessors(ctx context.Context, d ocispec.Descriptor) ([]ocispec.Descriptor, error) {
+	return f.preds, nil
+}
+
+func hostileSize(r *Rng, real int) int64 {
+	switch r.Intn(8) {
+	case 0:
+		return -1
+	case 1:
+		return 0
+	case 2:
+		return int64(real) + 1
+	case 3:
+		return 4<<20 + 1 + int64(r.Intn(1<<20)) // above the manifest cap, allocatable
+	case 4:
+		return 32<<20 + 1 + int64(r.Intn(8<<20)) // above the blob cap, allocatable
+	case 5:
+		return int64(real) - 1
+	}
+	return int64(real)
+}
+
+func exploreGraph(x *xrun, r *Rng, e *env, ctx context.Context, n int) {
+	c := &lcase{OCI: docCfg{Kind: 2, Level: "strict"}, PM: pmCfg{Kind: 0}, Sc: okSc()}
+	v, _, err := e.build(c, okSc())
+	if err != nil {
+		panic(err)
+	}
+	sig := e.envelope(okSc())
+	const artNotation = "application/vnd.cncf.notary.signature"
+	for k := 0; k < n; k++ {
+		ft := &fakeTarget{blobs: map[digest.Digest][]byte{}, tags: map[string]ocispec.Descriptor{}}
+		subject := e.desc
+		ft.tags[subject.Digest.String()] = subject
+		nsig := 1 + r.Intn(3)
+		for j := 0; j < nsig; j++ {
+			blob := sig
+			if r.Chance(1, 4) {
+				blob = mutateJWS(r, sig)
+			}
+			layer := ocispec.Descriptor{MediaType: MtJWS, Digest: digest.FromBytes(blob), Size: int64(len(blob))}
+			ft.blobs[layer.Digest] = blob
+			if r.Chance(1, 3) {
+				layer.Size = hostileSize(r, len(blob))
+			}
+			if r.Chance(1, 8) {
+				layer.Digest = digest.Digest(Pick(r, []string{"", "sha256:zz", "md5:00", "sha256:" + strings.Repeat("0", 64), "sha512:00"}))
+			}
+			man := map[string]any{
+				"schemaVersion": 2, "mediaType": ocispec.MediaTypeImageManifest, "artifactType": artNotation,
+				"config":  map[string]any{"mediaType": artNotation, "digest": ocispec.DescriptorEmptyJSON.Digest, "size": 2},
+				"layers":  []any{layer},
+				"subject": subject,
+				"annotations": map[string]any{"io.cncf.notary.x509chain.thumbprint#S256": "[]"},
+			}
+			mt := ocispec.MediaTypeImageManifest
+			if r.Chance(1, 4) {
+				mt = "application/vnd.cncf.oras.artifact.manifest.v1+json"
+				man = map[string]any{"mediaType": mt, "artifactType": artNotation, "blobs": []any{layer}, "subject": subject}
+			}
+			var mb []byte
+			switch r.Intn(5) {
+			case 0:
+				var tree any
+				b0, _ := json.Marshal(man)
+				json.Unmarshal(b0, &tree)
+				mb, _ = json.Marshal(mutateTree(r, tree, 0))
+			case 1:
+				b0, _ := json.Marshal(man)
+				mb = mutateJSON(r, b0)
+			case 2:
+				man[Pick(r, []string{"layers", "blobs"})] = Pick(r, []any{[]any{}, []any{layer, layer}, nil, "x", []any{nil}, []any{map[string]any{"size": "big"}}})
+				mb, _ = json.Marshal(man)
+			default:
+				mb, _ = json.Marshal(man)
+			}
+			md := ocispec.Descriptor{MediaType: mt, Digest: digest.FromBytes(mb), Size: int64(len(mb)), ArtifactType: artNotation}
+			ft.blobs[md.Digest] = mb
+			if r.Chance(1, 4) {
+				md.Size = hostileSize(r, len(mb))
+			}
+			if r.Chance(1, 10) {
+				md.MediaType = Pick(r, []string{"", "text/plain", ocispec.MediaTypeImageIndex})
+			}
+			ft.preds = append(ft.preds, md)
+		}
+		if r.Chance(1, 20) {
+			ft.preds = append(ft.preds, ft.preds...)
+		}
+		repo := registry.NewRepository(ft)
+		desc, _ := json.Marshal(ft.preds)
+		x.call("registry-graph", "registry.Repository + notation.Verify", "", desc, boundBlob, func() {
+			repo.Resolve(ctx, subject.Digest.String())
+			repo.ListSignatures(ctx, subject, func(ms []ocispec.Descriptor) error {
+				for _, m := range ms {
+					repo.FetchSignatureBlob(ctx, m)
+				}
+				return nil
+			})
+			for _, m := range ft.preds {
+				repo.FetchSignatureBlob(ctx, m)
+			}
+			_, outs, err := notation.Verify(ctx, v, repo, notation.VerifyOptions{ArtifactReference: e.ref, MaxSignatureAttempts: 1 + r.Intn(3)})
+			if err == nil && (len(outs) != 1 || outs[0] == nil || outs[0].Error != nil) {
+				panic("inconsistent: notation.Verify without error and without an error-free outcome")
+			}
+		})
+	}
+}
+
+// (iii, continued) hostile OCI layouts on disk
+func exploreLayouts(x *xrun, r *Rng, e *env, ctx context.Context, tmp string, n int) {
+	c := &lcase{OCI: docCfg{Kind: 2, Level: "strict"}, PM: pmCfg{Kind: 0}, Sc: okSc()}
+	v, _, err := e.build(c, okSc())
+	if err != nil {
+		panic(err)
+	}
+	sig := e.envelope(okSc())
+	const artNotation = "application/vnd.cncf.notary.signature"
+	for k := 0; k < n; k++ {
+		root := filepath.Join(tmp, fmt.Sprintf("layout%d", k))
+		blobs := filepath.Join(root, "blobs", "sha256")
+		os.MkdirAll(blobs, 0o755)
+		put := func(b []byte) ocispec.Descriptor {
+			d := digest.FromBytes(b)
+			os.WriteFile(filepath.Join(blobs, d.Encoded()), b, 0o644)
+			return ocispec.Descriptor{Digest: d, Size: int64(len(b))}
+		}
+		art := []byte(`{"schemaVersion":2,"mediaType":"application/vnd.oci.image.manifest.v1+json","config":{"mediaType":"application/vnd.oci.empty.v1+json","digest":"sha256:44136fa355b3678a1146ad16f7e8649e94fb4fc21fe77e8310c060f61caaff8a","size":2},"layers":[]}`)
+		put([]byte("{}"))
+		ad := put(art)
+		ad.MediaType = ocispec.MediaTypeImageManifest
+		layer := put(sig)
+		layer.MediaType = MtJWS
+		if r.Chance(1, 3) {
+			layer.Size = hostileSize(r, len(sig))
+		}
+		if r.Chance(1, 6) {
+			layer.Digest = digest.FromString("dangling")
+		}
+		man := map[string]any{"schemaVersion": 2, "mediaType": ocispec.MediaTypeImageManifest, "artifactType": artNotation,
+			"config": map[string]any{"mediaType": artNotation, "digest": ocispec.DescriptorEmptyJSON.Digest, "size": 2},
+			"layers": []any{layer}, "subject": ad}
+		mb, _ := json.Marshal(man)
+		if r.Chance(1, 2) {
+			mb = mutateJSON(r, mb)
+		}
+		md := put(mb)
+		md.MediaType = ocispec.MediaTypeImageManifest
+		md.ArtifactType = artNotation
+		if r.Chance(1, 4) {
+			md.Size = hostileSize(r, len(mb))
+		}
+		ad2 := ad
+		ad2.Annotations = map[string]string{"org.opencontainers.image.ref.name": "v1"}
+		idx := map[string]any{"schemaVersion": 2, "manifests": []any{ad2, md}}
+		ib, _ := json.Marshal(idx)
+		if r.Chance(1, 4) {
+			ib = mutateJSON(r, ib)
+		}
+		os.WriteFile(filepath.Join(root, "index.json"), ib, 0o644)
+		lay := []byte(`{"imageLayoutVersion":"1.0.0"}`)
+		if r.Chance(1, 10) {
+			lay = mutateJSON(r, lay)
+		}
+		os.WriteFile(filepath.Join(root, "oci-layout"), lay, 0o644)
+		x.call("oci-layout", "registry.NewOCIRepository + notation.Verify", root, ib, boundBlob, func() {
+			repo, err := registry.NewOCIRepository(root, registry.RepositoryOptions{})
+			if err != nil {
+				return
+			}
+			repo.Resolve(ctx, "v1")
+			d, err := repo.Resolve(ctx, ad.Digest.String())
+			if err != nil {
+				d = ad
+			}
+			repo.ListSignatures(ctx, d, func(ms []ocispec.Descriptor) error {
+				for _, m := range ms {
+					repo.FetchSignatureBlob(ctx, m)
+				}
+				return nil
+			})
+			repo.FetchSignatureBlob(ctx, md)
+			notation.Verify(ctx, v, repo, notation.VerifyOptions{ArtifactReference: TestScope + "@" + ad.Digest.String(), MaxSignatureAttempts: 2})
+		})
+		os.RemoveAll(root)
+	}
+}
+
+// (iv) plugin answers handed to the plugin signer (in process: the decoded
+// form of what a plugin prints)
+type scriptedSignPlugin struct {
+	meta    *pluginfw.GetMetadataResponse
+	key     *pluginfw.DescribeKeyResponse
+	sigResp *pluginfw.GenerateSignatureResponse
+	envResp *pluginfw.GenerateEnvelopeResponse
+	err     error
+}
+
+func (p *scriptedSignPlugin) GetMetadata(ctx context.Context, req *pluginfw.GetMetadataRequest) (*pluginfw.GetMetadataResponse, error) {
+	return p.meta, nil
+}
+func (p *scriptedSignPlugin) DescribeKey(ctx context.Context, req *pluginfw.DescribeKeyRequest) (*pluginfw.DescribeKeyResponse, error) {
+	return p.key, p.err
+}
+func (p *scriptedSignPlugin) GenerateSignature(ctx context.Context, req *pluginfw.GenerateSignatureRequest) (*pluginfw.GenerateSignatureResponse, error) {
+	return p.sigResp, p.err
+}
+func (p *scriptedSignPlugin) GenerateEnvelope(ctx context.Context, req *pluginfw.GenerateEnvelopeRequest) (*pluginfw.GenerateEnvelopeResponse, error) {
+	return p.envResp, p.err
+}
+
+func exploreSignerPlugin(x *xrun, r *Rng, e *env, ctx context.Context, n int) {
+	chainDER := [][]byte{}
+	for _, c := range e.good.Certs() {
+		chainDER = append(chainDER, c.Raw)
+	}
+	for k := 0; k < n; k++ {
+		format := Pick(r, []string{MtJWS, MtCOSE})
+		s := okSc()
+		s.Format = format
+		s.Payload = Pick(r, []int{0, 1, 2})
+		envb := e.envelope(s)
+		if r.Chance(2, 3) {
+			if format == MtJWS {
+				envb = mutateJWS(r, envb)
+			} else {
+				envb = mutateCOSE(r, envb)
+			}
+		}
+		p := &scriptedSignPlugin{
+			meta: &pluginfw.GetMetadataResponse{Name: "plug", Description: "d", Version: "1.0.0", URL: "u", SupportedContractVersions: []string{"1.0"}},
+			key:  &pluginfw.DescribeKeyResponse{KeyID: "kid", KeySpec: pluginfw.KeySpecEC256},
+		}
+		entry := "signer.PluginSigner.Sign (envelope generator)"
+		var in []byte
+		if r.Bool() {
+			p.meta.Capabilities = []pluginfw.Capability{pluginfw.CapabilityEnvelopeGenerator}
+			p.envResp = &pluginfw.GenerateEnvelopeResponse{SignatureEnvelope: envb, SignatureEnvelopeType: format, Annotations: map[string]string{"a": "b"}}
+			if r.Chance(1, 10) {
+				p.envResp.SignatureEnvelopeType = Pick(r, []string{"", MtJWS, MtCOSE, "x"})
+			}
+			in = envb
+		} else {
+			entry = "signer.PluginSigner.Sign (signature generator)"
+			p.meta.Capabilities = []pluginfw.Capability{pluginfw.CapabilitySignatureGenerator}
+			chain := append([][]byte(nil), chainDER...)
+			switch r.Intn(6) {
+			case 0:
+				chain = nil
+			case 1:
+				chain[r.Intn(len(chain))] = mutateBytes(r, chain[0])
+			case 2:
+				chain = chain[:1]
+			case 3:
+				chain = append(chain, nil)
+			}
+			p.key.KeySpec = Pick(r, []pluginfw.KeySpec{pluginfw.KeySpecEC256, pluginfw.KeySpecRSA2048, pluginfw.KeySpecEC521, "", "bogus"})
+			if r.Chance(1, 10) {
+				p.key.KeyID = "other"
+			}
+			p.sigResp = &pluginfw.GenerateSignatureResponse{KeyID: "kid", Signature: randBytes(r, Pick(r, []int{0, 1, 64, 70, 256})), SigningAlgorithm: Pick(r, []pluginfw.SignatureAlgorithm{pluginfw.SignatureAlgorithmECDSA_SHA256, pluginfw.SignatureAlgorithmRSASSA_PSS_SHA256, "", "bogus"}), CertificateChain: chain}
+			if r.Chance(1, 10) {
+				p.sigResp.KeyID = ""
+			}
+			in, _ = json.Marshal(p.sigResp)
+		}
+		if r.Chance(1, 15) {
+			p.err = errors.New("scripted plugin failure")
+		}
+		x.call("plugin-answers", entry, format, in, boundSmall, func() {
+			ps, err := signer.NewPluginSigner(p, "kid", map[string]string{"c": "d"})
+			if err != nil {
+				return
+			}
+			sig, info, err := ps.Sign(ctx, e.desc, notation.SignerSignOptions{SignatureMediaType: format, ExpiryDuration: time.Hour})
+			if err == nil && (len(sig) == 0 || info == nil) {
+				panic("inconsistent: Sign without error and without signature")
+			}
+			ps.SignBlob(ctx, e.descGen(okSc()), notation.SignerSignOptions{SignatureMediaType: format})
+			ps.PluginAnnotations()
+		})
+	}
+}
+
+// (iv, continued) a plugin process: stdout, stderr and exit code are files
+// next to a /bin/sh stub
+func explorePluginProcess(x *xrun, r *Rng, e *env, ctx context.Context, tmp string, n int) {
+	pdir := filepath.Join(tmp, "plugins", "plug")
+	os.MkdirAll(pdir, 0o755)
+	path := filepath.Join(pdir, "notation-plug")
+	script := "#!/bin/sh\ncat >/dev/null\ncat \"$0.out\"\ncat \"$0.err\" >&2\nexit $(cat \"$0.code\")\n"
+	if err := os.WriteFile(path, []byte(script), 0o755); err != nil {
+		panic(err)
+	}
+	meta := []byte(`{"name":"plug","description":"d","version":"1.0.0","url":"u","supportedContractVersions":["1.0"],"capabilities":["SIGNATURE_VERIFIER.TRUSTED_IDENTITY","SIGNATURE_VERIFIER.REVOCATION_CHECK"]}`)
+	verifyResp := []byte(`{"verificationResults":{"SIGNATURE_VERIFIER.TRUSTED_IDENTITY":{"success":true},"SIGNATURE_VERIFIER.REVOCATION_CHECK":{"success":false,"reason":"r"}},"processedAttributes":["io.example.critical"]}`)
+	errJSON := []byte(`{"errorCode":"VALIDATION_ERROR","errorMessage":"m","errorMetadata":{"a":"b"}}`)
+	keyResp := []byte(`{"keyId":"kid","keySpec":"EC-256"}`)
+	cp, err := plugin.NewCLIPlugin(ctx, "plug", path)
+	if err != nil {
+		panic(err)
+	}
+	for k := 0; k < n; k++ {
+		cmd := r.Intn(5)
+		base := [][]byte{meta, verifyResp, keyResp, []byte(`{"keyId":"kid","signature":"AAAA","signingAlgorithm":"ECDSA-SHA-256","certificateChain":["AAAA"]}`), []byte(`{"signatureEnvelope":"AAAA","signatureEnvelopeType":"application/jose+json","annotations":{"a":"b"}}`)}[cmd]
+		out, errb, code := base, []byte(nil), 0
+		switch r.Intn(6) {
+		case 0:
+		case 1:
+			out = mutateJSON(r, base)
+		case 2:
+			out = mutateJSON(r, base)
+			errb = randBytes(r, r.Intn(100))
+		case 3:
+			code = 1 + r.Intn(3)
+			errb = mutateJSON(r, errJSON)
+		case 4:
+			code = 1
+			errb = nil
+		case 5:
+			out = bytes.Repeat([]byte("A"), 1<<uint(10+r.Intn(10)))
+		}
+		os.WriteFile(path+".out", out, 0o644)
+		os.WriteFile(path+".err", errb, 0o644)
+		os.WriteFile(path+".code", []byte(fmt.Sprint(code)), 0o644)
+		in := append(append(append([]byte(nil), out...), []byte("\n--stderr--\n")...), errb...)
+		x.call("plugin-process", []string{"CLIPlugin.GetMetadata", "CLIPlugin.VerifySignature", "CLIPlugin.DescribeKey", "CLIPlugin.GenerateSignature", "CLIPlugin.GenerateEnvelope"}[cmd], fmt.Sprintf("exit=%d", code), in, boundSmall+(4<<20), func() {
+			c2, cancel := context.WithTimeout(ctx, 10*time.Second)
+			defer cancel()
+			switch cmd {
+			case 0:
+				m, err := cp.GetMetadata(c2, &pluginfw.GetMetadataRequest{})
+				if err == nil && m == nil {
+					panic("inconsistent: no error and no metadata")
+				}
+			case 1:
+				resp, err := cp.VerifySignature(c2, &pluginfw.VerifySignatureRequest{})
+				if err == nil && resp == nil {
+					panic("inconsistent: no error and no response")
+				}
+			case 2:
+				cp.DescribeKey(c2, &pluginfw.DescribeKeyRequest{KeyID: "kid"})
+			case 3:
+				cp.GenerateSignature(c2, &pluginfw.GenerateSignatureRequest{KeyID: "kid"})
+			case 4:
+				cp.GenerateEnvelope(c2, &pluginfw.GenerateEnvelopeRequest{KeyID: "kid"})
+			}
+		})
+		// the same answers consumed by the verifier (metadata, then verify-signature)
+		if cmd <= 1 && k%3 == 0 {
+			mgr := plugin.NewCLIManager(dir.NewSysFS(filepath.Join(tmp)))
+			s := okSc()
+			s.PAttr, s.Crit = 2, true
+			envb := e.envelope(s)
+			store := NewMockStore()
+			store.Put(truststore.TypeCA, "s", e.good[len(e.good)-1].C)
+			x.call("plugin-process", "verifier.Verify with a CLI plugin", fmt.Sprintf("exit=%d", code), in, boundSmall+(4<<20), func() {
+				v, err := verifier.NewVerifierWithOptions(store, verifier.VerifierOptions{OCITrustPolicy: OCIPolicy("strict", nil, []string{"ca:s"}, []string{"*"}, ""), PluginManager: mgr})
+				if err != nil {
+					return
+				}
+				c2, cancel := context.WithTimeout(ctx, 10*time.Second)
+				defer cancel()
+				o, err := v.Verify(c2, e.desc, envb, notation.VerifierVerifyOptions{ArtifactReference: e.ref, SignatureMediaType: MtJWS})
+				checkPair(o, err, true)
+			})
+		}
+	}
+}
